@@ -851,6 +851,30 @@ def _job(spec):
     return spec, stats, recs, cells, values, sanity, sample
 
 
+NONCONST = ('xo', 'xo + 1', '1 + xo * 0', 'ao[1]', '*&xo', '-xo', '(long long)xo', 'xo ? 1 : 2', '1 ? xo : 2', 'so.i', '(&so)->i', 'xo == xo',
+            '(int)(long)&xo', '1 / xo', 'sizeof(int) + xo', '*ao')
+NONCONST_CTX = (('data', 'int v = %s;'), ('thread', '_Thread_local int v = %s;'), ('assert', '_Static_assert(%s, "");'), ('array', 'char a[%s];'),
+                ('enum', 'enum { e = %s };'), ('case', 'void f(void) { switch (0) { case %s: ; } }'), ('width', 'struct { int b : %s; } s;'),
+                ('alignas', '_Alignas(%s) char c;'))
+
+
+def _nonconst_job(cls):
+    """expressions that are not constant must be refused in every context that needs a constant"""
+    out = []
+    n = runs = 0
+    for target in CLASSES[cls]:
+        R = Runner(target)
+        for e in NONCONST:
+            for ctx, fmt in NONCONST_CTX:
+                n += 1
+                src = PRELUDE + fmt % e + '\n'
+                r = R.compile(src)
+                if r.status != 1:
+                    out.append((target, e, ctx, src, 'accepted' if r.status == 0 else 'status %d' % r.status))
+        runs += R.runs
+    return n, runs, out
+
+
 def _addr_job(cls):
     cases = addr_cases()
     out = []
@@ -1005,6 +1029,22 @@ def main(chk):
             addr_bad += out
             cells |= {('addr', i, '-') for i in range(nforms)}
 
+    # non-constant expressions where a constant is required
+    nonconst_bad = []
+    if chk.want('nonconst'):
+        for ncase, runs, out in fs.pmap(_nonconst_job, list(CLASSES)):
+            st = strata.setdefault('nonconst', {'cases': 0, 'transitions': 0, 'disagreements': 0, 'cpu_s': 0.0})
+            st['cases'] += ncase
+            st['transitions'] += ncase
+            st['disagreements'] += len(out)
+            tot['cases'] += ncase
+            tot['transitions'] += ncase
+            tot['runs'] += runs
+            tot['expected_reject'] += ncase
+            ctxs['nonconstant-reject'] = ctxs.get('nonconstant-reject', 0) + ncase
+            nonconst_bad += out
+        cells |= {('nonconst', e, c) for e in NONCONST for c, _ in NONCONST_CTX}
+
     # ---- two-witness rule ---------------------------------------------------------------------------------
     ambiguous = 0
     amb_classes = {}
@@ -1039,6 +1079,7 @@ def main(chk):
             chk.notes.append('ambiguous (%s): %s -- R: %s; cproc: %s' % (why, r['src'], r['expected'], r['mism'][0][2]))
 
     rejjobs, rejrecs, perkey, extras = [], [], {}, {}
+    recs.sort(key=lambda r: (r['cls'] != 's', len(r['src']), r['src']))      # the simplest case represents its family
     for r in recs:
         key = violation_key(r)
         r['key'] = key
@@ -1072,6 +1113,15 @@ def main(chk):
                 report(chk, r)
             else:
                 amb(r, 'family not unanimously confirmed by the witnesses')
+    for target, e, ctx, src, obs in nonconst_bad:
+        cls = 's' if target == 'x86_64-sysv' else 'u'
+        key = 'crash/%s/nonconst' % obs.replace(' ', '-') if obs.startswith('status') else 'nonconstant-accepted/%s' % ctx
+        if not obs.startswith('status') and not _witness_rejects((cls, src)):
+            ambiguous += 1
+            chk.notes.append('ambiguous: non-constant %s accepted in context %s by cproc and by a witness' % (e, ctx))
+            continue
+        chk.violation(key, '%s in context %s (%s): expected a diagnostic, compiler gave %s' % (e, ctx, target, obs),
+                      files={'input.c': src.encode()}, cmd='$CPROC_QBE -t %s input.c; echo "status=$? -- expected: non-zero"' % target)
     for target, text, sym, off, form, obs in addr_bad:
         rc, asm, _ = witness.clang_asm(PRELUDE + text + '\n', target=target)
         m = re.search(r'\.(?:quad|xword|dword)\s+%s(?:\s*([+-])\s*(\d+))?\s*$' % sym, asm.decode(errors='replace'), re.M)
